@@ -749,5 +749,26 @@ pub fn universe_depth1() -> Vec<Ty> {
             }
         }
     }
+    // unions of same-arity function types next to single function types whose parameter / result is the union of
+    // theirs, and the same with a non-function member: "callable like the union" is not "a member of the union"
+    let (i, st, f) = (Ty::Int, Ty::Str, Ty::Float);
+    let is = Ty::union([i.clone(), st.clone()]);
+    for p in [i.clone(), Ty::Any, is.clone()] {
+        let rs = [i.clone(), st.clone(), is.clone(), Ty::Any];
+        for (k, r1) in rs.iter().enumerate() {
+            out.insert(Ty::fun(vec![p.clone()], r1.clone()));
+            out.insert(Ty::fun(vec![], Ty::Tup(vec![Ty::Bool, r1.clone()])));
+            for r2 in &rs[k + 1..] {
+                let u = Ty::union([Ty::fun(vec![p.clone()], r1.clone()), Ty::fun(vec![p.clone()], r2.clone())]);
+                out.insert(u.clone());
+                out.insert(Ty::union([u, f.clone()]));
+            }
+        }
+    }
+    out.insert(Ty::union([Ty::fun(vec![i.clone()], i.clone()), Ty::fun(vec![st.clone()], i.clone())]));
+    out.insert(Ty::fun(vec![is.clone()], i.clone()));
+    out.insert(Ty::union([Ty::fun(vec![], Ty::Tup(vec![Ty::Bool, i.clone()])), Ty::fun(vec![], Ty::Tup(vec![Ty::Bool, f.clone()]))]));
+    out.insert(Ty::fun(vec![], Ty::Tup(vec![Ty::Bool, Ty::union([i.clone(), f.clone()])])));
+    out.insert(Ty::fun(vec![], Ty::union([Ty::Tup(vec![Ty::Bool, i.clone()]), Ty::Tup(vec![Ty::Bool, f])])));
     out.into_iter().collect()
 }
